@@ -10,6 +10,8 @@ import (
 
 var cmds = map[string]func([]string) error{
 	"c03": props.C03,
+	"c19": props.C19,
+	"c20": props.C20,
 }
 
 func main() {
